@@ -51,6 +51,7 @@ DEFAULT_SPEC = {
     "long_locus": 0,       # 1: extra chromosome chrL with a > 64 kb read island that IsoQuant splits at a coverage valley
     "exp_bams": None,      # per-experiment number of files (overrides n_bams)
     "novel_one_file": 0,   # reads of unannotated isoforms all go to the first file of their experiment
+    "novel_gene_overlap": 0,  # k unannotated transcripts inside an annotated gene's span with entirely novel (shifted) introns
     "bam_split": "random", # how reads are dealt into files: random | chunks (contiguous by position) | tiny (one file gets 1 read)
 }
 
@@ -177,6 +178,14 @@ def generate(spec):
             g.novel.append(cands[rg.randrange(len(cands))])
     for g in [x for x in flat if len(x.exons) >= 2][: s["noncanon"]]:
         g.noncanon = True
+    # unannotated transcripts inside an annotated gene whose introns are all novel (every splice site shifted by 14-25 bp)
+    for g in [x for x in flat if len(x.exons) >= 3 and not x.noncanon][-s["novel_gene_overlap"]:] if s["novel_gene_overlap"] else []:
+        ex = []
+        for i, (a, b) in enumerate(g.exons):
+            na = a if i == 0 else a + 14 + rg.randrange(10)
+            nb = b if i == len(g.exons) - 1 else b - 14 - rg.randrange(10)
+            ex.append((na, nb))
+        g.shifted = ex
 
     # paralogs: copy gene structure to the tail of the next chromosome
     paralogs = []
@@ -254,7 +263,11 @@ def generate(spec):
         gcount += 1
         l2 = Gene(gene_name(s, gcount), "chrL", "-", [(37000 + o, 37300 + o), (49000 + o, 49200 + o), (61000 + o, 61200 + o), (73000 + o, 73300 + o)])
         l2.isoforms = [(l2.gid + ".t1", [0, 1, 2, 3])]
-        long_genes = [l1, l2]
+        gcount += 1
+        # small annotated gene sitting in the coverage valley between the two long genes: its single read straddles the split
+        lb = Gene(gene_name(s, gcount), "chrL", "+", [(36350 + o, 36520 + o), (36700 + o, 36960 + o)])
+        lb.isoforms = [(lb.gid + ".t1", [0, 1])]
+        long_genes = [l1, l2, lb]
         genes.append(long_genes)
     cidx = {n: i for i, n in enumerate(names)}
     # break accidental homopolymers is unnecessary; plant splice sites
@@ -263,6 +276,8 @@ def generate(spec):
             if g.paralog_of is not None or getattr(g, "antisense_of", None) is not None or getattr(g, "annotation_only", False):
                 continue
             _plant_sites(chroms[cidx[g.chrom]][1], g.exons, g.strand, canonical=not g.noncanon)
+            if getattr(g, "shifted", None):
+                _plant_sites(chroms[cidx[g.chrom]][1], g.shifted, g.strand, canonical=True)
             # all pairs of exons that may become adjacent through skipping share the same donor/acceptor dinucleotides
     for p in paralogs:
         src = p.paralog_of
@@ -335,7 +350,7 @@ def generate(spec):
             variants = [(tid, idx, 200 if k == 0 else 20, False) for k, (tid, idx) in enumerate(g.isoforms)]
             variants += [("novel:%s:%d" % (g.gid, k), idx, 3, True) for k, idx in enumerate(g.novel)]
         if g in long_genes:
-            variants = [(tid, idx, 6, False) for tid, idx in g.isoforms]
+            variants = [(tid, idx, 6 if g is not long_genes[2] else 1, False) for tid, idx in g.isoforms]
         for tid, idx, cov, is_novel in variants:
             for k in range(cov):
                 blocks = [g.exons[i] for i in idx]
@@ -392,11 +407,29 @@ def generate(spec):
         rid += 1
         reads.append({"id": "r%04d" % rid, "src": "intergenic", "gene": None, "kind": "lowmapq",
                       "records": [mk_record(chroms[ci][0], [(60, 230)], "+", False, mapq=0)]})
+    for g in allgenes:
+        if getattr(g, "shifted", None) and g.paralog_of is None and g.gid not in para_of:
+            for k in range(max(4, s["novel_cov"])):
+                rid += 1
+                reads.append({"id": "r%04d" % rid, "src": "novel:%s:shifted" % g.gid, "gene": g.gid, "kind": "shifted",
+                              "records": [mk_record(g.chrom, g.shifted, g.strand, bool(s["polya"]))]})
     if long_genes:
-        l1, l2 = long_genes
+        l1, l2, lb = long_genes
         e1 = l1.exons[-1][1]
         e2 = l2.exons[-1][1]
-        extra = [("bridge", [(e1 - 200, l2.exons[0][0] + 200)])]
+        s1 = l1.exons[0][0]
+        # the read of the valley gene also has a (losing) multi-exon secondary alignment upstream on the same chromosome
+        for r in reads:
+            if r["gene"] == lb.gid:
+                r["records"].append(mk_record("chrL", [(60, 120), (160, 230), (270, 330)], "+", False, flag_extra=256,
+                                              with_seq=bool(s["secondary_seq"])))
+                r["kind"] += "+upstream_secondary"
+        extra = []
+        # a separate small island that ends in the same 256-bp bin in which the long island starts
+        for blocks in ([(s1 - 500, s1 - 300)], [(s1 - 350, s1 - 40)], [(s1 - 240, s1 - 45)]):
+            extra.append(("prelude", blocks))
+        for ln in (30, 65, 110, 170):
+            extra.append(("leading_short", [(s1, s1 + ln)]))
         for d in (60, 110, 170, 230, 300):
             extra.append(("tail", [(e2 - d, e2 - 10)]))
         for d in (40, 120, 250):
@@ -404,7 +437,7 @@ def generate(spec):
         for kind, blocks in extra:
             rid += 1
             reads.append({"id": "r%04d" % rid, "src": kind, "gene": None, "kind": kind,
-                          "records": [mk_record("chrL", blocks, "+", False)]})
+                          "records": [mk_record("chrL", [(max(1, a), b) for a, b in blocks], "+", False)]})
     for k in range(s["intergenic_multi"]):
         if len(chroms) < 2:
             break
@@ -517,12 +550,10 @@ def _gtf_lines(truth):
                 otid = tid
                 if s["pre_ids"] and k == 0 and first_on_chr and s["pre_ids"] >= 2:
                     otid = "transcript:ENSX%05d" % n            # Ensembl-GFF3 style id that merely starts with "transcript"
-                elif s["pre_ids"] and k == 0:
-                    # ids left by an earlier IsoQuant run: small numbers, both suffixes
-                    for num in range(1 + n % 3, 60):
-                        otid = "transcript%d.%s.%s" % (num, chrom, "nic" if (num + n) % 2 else "nnic")
-                        if otid not in used_tids:
-                            break
+                elif s["pre_ids"] and (k == 0 or s["pre_ids"] >= 2):
+                    # ids left by an earlier IsoQuant run: numbers from 1, both suffixes
+                    j = len([t for t in used_tids if t.startswith("transcript") and (".%s." % chrom) in t])
+                    otid = "transcript%d.%s.%s" % (j // 2 + 1, chrom, "nic" if j % 2 == 0 else "nnic")
                 used_tids.add(otid)
                 first_on_chr = False
                 g.out_tids.append(otid)
@@ -678,7 +709,8 @@ def random_spec(rng, profile="small"):
              chr_order=rng.choice([0, 1, 2]), gene_naming=rng.choice([0, 0, 1, 2]), group_naming=rng.choice([0, 1, 2, 3]),
              drop_chr_annotation=rng.choice([0, 0, 0, 1]), readthrough=rng.choice([0, 0, 1]), mirror=rng.choice([0, 0, 1]),
              intergenic_multi=rng.choice([0, 0, 1, 2]), deep_gene=rng.choice([0] * 9 + [1]),
-             long_locus=rng.choice([0, 0, 0, 0, 1]), bam_split=rng.choice(["random", "random", "chunks", "tiny"]))
+             long_locus=rng.choice([0, 0, 0, 0, 1]), bam_split=rng.choice(["random", "random", "chunks", "tiny"]),
+             novel_gene_overlap=rng.choice([0, 0, 1]))
     return s
 
 
